@@ -227,10 +227,6 @@ def evaluate(m):
                         k = src[0]
                         if k in ('int', 'uint', 'fd'):
                             ok = a == b
-                        elif k == 'fixed' and d != 'old' and src[1] < 0 and src[1] & 255 == 0:
-                            # libwayland's "-%d.%08d" rendering prints negative whole numbers as e.g. -1.100000000:
-                            # the print-out does not retain the value, nothing to agree on
-                            ok = a[0] == 'float' and b[0] == 'float'
                         elif k == 'fixed':
                             ok = a[0] == 'float' and b[0] == 'float' and (abs(a[1] - b[1]) <= 5e-7 if d == 'old' else a[1] == b[1])
                         elif k == 'str':
